@@ -80,6 +80,7 @@ func main() {
 		line := malformedLine(r)
 		out.Emit(line, "bad-op")
 	}
+	out.Emit("branchstats", "-") // answered by the model only (its branch statistics go into the evidence)
 	fmt.Println("STATS " + statsJSON(out, st))
 }
 
